@@ -293,7 +293,7 @@ def random_clause(rnd, comps, allow_aggr=False):
     if nonid:
         kinds += ['keep', 'rename']
     if len(nonid) > 1:
-        kinds += ['drop']
+        kinds += ['drop', 'rename_multi']
     if len(ids) > 1:
         kinds += ['sub']
     if ids:
@@ -330,6 +330,18 @@ def random_clause(rnd, comps, allow_aggr=False):
     if kind == 'drop':
         ks = rnd.sample([c['n'] for c in nonid], rnd.randrange(1, len(nonid)))
         return {'op': 'drop', 'items': ks}, [c for c in comps if c['n'] not in ks]
+    if kind == 'rename_multi':
+        # several pairs applied simultaneously; targets may be names renamed away by the same clause (swap / shift)
+        a, b = rnd.sample(nonid, 2)
+        if rnd.random() < 0.5:
+            pairs = [[a['n'], b['n']], [b['n'], a['n']]]
+        else:
+            to = 'R_%d' % len(names)
+            while to in names:
+                to += 'x'
+            pairs = [[a['n'], b['n']], [b['n'], to]]
+        m = dict((x, y) for x, y in pairs)
+        return {'op': 'rename', 'items': pairs}, [dict(c, n=m[c['n']]) if c['n'] in m else c for c in comps]
     if kind in ('rename', 'rename_id'):
         src = rnd.choice(nonid if kind == 'rename' else ids)
         to = 'R_%d' % len(names)
